@@ -166,6 +166,10 @@ def run(F, rep, tier):
     _C05.no_extra_refusal_rule(F, rep)
     from props import C08 as _C08
     _C08.trailing_rule(F, rep)
+    # "the second read yields the same Gecko codes": blocks kept whole by the reader and re-emitted with size, wrapped code and
+    # final flag by the writer (C01's gecko rule)
+    from props import C01 as _C01
+    _C01.gecko_rule(F, rep)
     C16.reader_grammar(F, rep)
     C16.writer_grammar(F, rep)
     C16.writer_domain_rule(F, rep)
